@@ -41,9 +41,14 @@ class untraced:
 
 def conc(v: Any, lo: int, hi: int) -> int:
     """Turn a (possibly symbolic) selector into a genuine Python int by case split over [lo, hi]."""
-    for c in range(lo, hi + 1):
-        if v == c:
-            return c
+    while lo < hi:
+        mid = (lo + hi) // 2
+        if v <= mid:
+            hi = mid
+        else:
+            lo = mid + 1
+    if v == lo:
+        return lo
     raise AssertionError("selector out of its declared range")
 
 
